@@ -117,6 +117,42 @@ func glue(md *idlgen.ModuleDesc) string {
 	return sb.String()
 }
 
+// bigIDL: the fixed interface of the large phase (big.go): byte vectors (signed and unsigned),
+// strings, vectors of strings, nested vectors and a struct carrying such members, in and out.
+const bigIDL = `module Big
+{
+    struct Box
+    {
+        0 require int tag;
+        1 optional vector<byte> data;
+        2 optional string note;
+        3 optional vector<vector<int>> grid;
+        5 optional vector<unsigned byte> raw;
+    };
+    interface Ifc
+    {
+        int blob(int tag, vector<byte> data, out vector<byte> echo, out string tagEcho);
+        int boxEcho(Box b, out Box e);
+        vector<string> strs(int tag, vector<string> data, out vector<vector<int>> grid);
+        void rawEcho(int tag, vector<unsigned byte> data, out vector<unsigned byte> echo, out Box e);
+    };
+};
+`
+
+func bigModule() *idlgen.ModuleDesc {
+	sc := func(k string) *idlgen.IType { return &idlgen.IType{Kind: k} }
+	vec := func(e *idlgen.IType) *idlgen.IType { return &idlgen.IType{Kind: "vector", Elem: e} }
+	box := &idlgen.IType{Kind: "struct", Name: "Box"}
+	in := func(n string, t *idlgen.IType) idlgen.Param { return idlgen.Param{Name: n, Ty: t} }
+	out := func(n string, t *idlgen.IType) idlgen.Param { return idlgen.Param{Name: n, Ty: t, Out: true} }
+	return &idlgen.ModuleDesc{Name: "Big", IDL: bigIDL, Funcs: []idlgen.Func{
+		{Name: "blob", Ret: sc("int"), Params: []idlgen.Param{in("tag", sc("int")), in("data", vec(sc("byte"))), out("echo", vec(sc("byte"))), out("tagEcho", sc("string"))}},
+		{Name: "boxEcho", Ret: sc("int"), Params: []idlgen.Param{in("b", box), out("e", box)}},
+		{Name: "strs", Ret: vec(sc("string")), Params: []idlgen.Param{in("tag", sc("int")), in("data", vec(sc("string"))), out("grid", vec(vec(sc("int"))))}},
+		{Name: "rawEcho", Params: []idlgen.Param{in("tag", sc("int")), in("data", vec(sc("unsigned byte"))), out("echo", vec(sc("unsigned byte"))), out("e", box)}},
+	}}
+}
+
 // FilterConfigs of a tier.
 func FilterConfigs(thorough bool) []string {
 	base := []string{"c0.0.0.0-s0.0.0.0", "c1.0.0.0-s1.0.0.0", "c0.2.0.0-s0.2.0.0", "c0.0.2.1-s0.0.1.2", "c1.2.1.1-s1.2.1.1", "c0.3.2.2-s0.1.3.3"}
@@ -201,6 +237,17 @@ func Launch() {
 		}
 		mods = append(mods, md)
 	}
+	// the fixed interface of the large phase
+	{
+		md := bigModule()
+		os.WriteFile(filepath.Join(tmp, "Big.tars"), []byte(md.IDL), 0o644)
+		if out, err := runCmd(tmp, 60*time.Second, goEnv(), filepath.Join(tmp, "tars2go"), "-outdir=out", "-module=genmod/out", "Big.tars"); err != nil {
+			res.Violate(common.Violation{Signature: "C01:generator-rejects-valid-idl:tars2go", What: "tars2go failed on the fixed interface Big: " + lastLines(out, 3),
+				Case: common.Case{Stream: "idl", Op: map[string]string{"idl": md.IDL}, Impl: lastLines(out, 5)}})
+		} else {
+			mods = append(mods, md)
+		}
+	}
 	var mb strings.Builder
 	mb.WriteString("package main\n\nimport (\n\t\"context\"\n\n\t\"verifharness/e2e\"\n")
 	for _, m := range mods {
@@ -245,7 +292,7 @@ func Launch() {
 			args := []string{"-tier", o.Tier, "-seed", fmt.Sprint(o.Seed + int64(i)), "-model", o.Model, "-out", outFile}
 			env := append(os.Environ(), "VERIF_E2E_FILTERS="+fc.filters, fmt.Sprintf("VERIF_E2E_POOL=%d", fc.pool),
 				fmt.Sprintf("VERIF_E2E_GENSEED=%d", genSeed), "VERIF_E2E_GENTIER="+genTier)
-			if rcase != nil && rcase.Scenario != nil {
+			if rcase != nil && (rcase.Scenario != nil || rcase.Large != nil) {
 				env = append(env, "VERIF_E2E_REPLAY="+o.Replay)
 			}
 			var out string
